@@ -26,6 +26,7 @@ mod plan;
 mod prng;
 mod runner;
 mod stats;
+mod watch;
 
 use std::sync::Arc;
 use std::time::Duration;
@@ -71,8 +72,8 @@ fn default_runs(s: Scenario, t: Tier) -> u64 {
         (Scenario::SessionReset, Tier::Thorough) => 800000,
         (Scenario::LearnedDurability, Tier::Quick) => 8000,
         (Scenario::LearnedDurability, Tier::Thorough) => 140000,
-        (Scenario::UserfileFaults, Tier::Quick) => 12000,
-        (Scenario::UserfileFaults, Tier::Thorough) => 1500, // base histories of the enumeration
+        (Scenario::UserfileFaults, Tier::Quick) => 8000, // sampled runs; plus 32 enumerated base histories
+        (Scenario::UserfileFaults, Tier::Thorough) => 60000, // sampled runs; plus 1500 enumerated base histories
         (Scenario::Reconfigure, Tier::Quick) => 25000,
         (Scenario::Reconfigure, Tier::Thorough) => 350000,
         (Scenario::FixedRules, Tier::Quick) => 200000,
@@ -152,9 +153,15 @@ fn cmd_run(args: &[String]) -> i32 {
     let tally = args.iter().any(|a| a == "--tally");
     let cfg = BatchCfg { scenario, tier, verif_seed, runs, workers, wall_cap, first_index: first, tally };
 
-    if scenario == Scenario::UserfileFaults && tier == Tier::Thorough {
-        return enumerate::run_enumeration(&env, &known, &cfg);
-    }
+    // C10: seeded sampling first, then fault enumeration over a set of base histories
+    let enum_bases: Option<u64> = if scenario == Scenario::UserfileFaults && !tally {
+        Some(arg_val(args, "--bases").and_then(|s| s.parse().ok()).unwrap_or(match tier {
+            Tier::Quick => 32,
+            Tier::Thorough => 1500,
+        }))
+    } else {
+        None
+    };
 
     let res = run_batch(&env, &known, &cfg);
     if let Some(e) = &res.harness_error {
@@ -233,8 +240,14 @@ fn cmd_run(args: &[String]) -> i32 {
             exit = 1;
         }
     }
+    if let (Some(bases), 0) = (enum_bases, exit) {
+        if bases > 0 {
+            let ecfg = BatchCfg { scenario, tier, verif_seed, runs: bases, workers, wall_cap, first_index: 0, tally: false };
+            return enumerate::run_enumeration(&env, &known, &ecfg, Some(res), resampled);
+        }
+    }
     let ex = EvidenceExtra {
-        level: "exploration",
+        level: if scenario == Scenario::UserfileFaults { "fault_enumeration" } else { "exploration" },
         rule: rule_for(scenario),
         assumptions: assumptions_for(scenario),
         extra: serde_json::json!({}),
@@ -251,6 +264,195 @@ fn cmd_run(args: &[String]) -> i32 {
     exit
 }
 
+/// `run` is a thin parent: the batch itself runs in a child (`run-inner`) so that a call
+/// that never returns, or one that kills the process, becomes a reported violation.
+fn cmd_run_parent(args: &[String]) -> i32 {
+    let mut child_args = vec!["run-inner".to_string()];
+    child_args.extend(args.iter().cloned());
+    let (end, out) = watch::run_child(&child_args, Duration::from_secs(6 * 3600), true);
+    match end {
+        watch::ChildEnd::Exit(c) if c == 0 || c == 1 || c == 2 => c,
+        other => handle_suspect(args, other, &out),
+    }
+}
+
+fn classify_child(end: &watch::ChildEnd) -> Option<&'static str> {
+    match end {
+        watch::ChildEnd::Exit(0) => None,
+        watch::ChildEnd::TimedOut => Some("no-return"),
+        watch::ChildEnd::Signal(_) => Some("process-killed"),
+        watch::ChildEnd::Exit(c) if *c == watch::EXIT_SUSPECT => Some("process-killed"),
+        watch::ChildEnd::Exit(1) => Some("ordinary-violation"),
+        watch::ChildEnd::Exit(_) => Some("harness"),
+    }
+}
+
+/// Executes a plan in a fresh child with a time limit; how it ends is the verdict.
+fn judge_plan_in_child(dir: &str, tag: &str, rep: &Replay, limit: Duration) -> (Option<&'static str>, String) {
+    let path = format!("{}/suspect-{}-{}.json", dir, std::process::id(), tag);
+    std::fs::write(&path, serde_json::to_vec(rep).unwrap()).unwrap_or_else(|e| die(&format!("{}: {}", path, e)));
+    let (end, out) = watch::run_child(&["replay-inner".to_string(), path.clone(), "--quiet".to_string()], limit, false);
+    let _ = std::fs::remove_file(&path);
+    (classify_child(&end), out)
+}
+
+fn handle_suspect(args: &[String], end: watch::ChildEnd, out: &str) -> i32 {
+    let (kind, runs, line) = match watch::parse_suspect(out) {
+        Some(x) => x,
+        None => die(&format!("the simulator child ended with {:?} and left no breadcrumb", end)),
+    };
+    let prop = args.get(0).cloned().unwrap_or_default();
+    let scenario = Scenario::from_property(&prop).unwrap_or_else(|| die("unknown property"));
+    let tier = parse_tier(args.get(1).map(|s| s.as_str()).unwrap_or("quick"));
+    let verif_seed: u64 = std::env::var("VERIF_SEED").ok().and_then(|s| s.parse().ok()).unwrap_or(DEFAULT_SEED);
+    let env = Env::load().unwrap_or_else(|e| die(&e));
+    let dir = format!("{}/.cache", env.paths.verif);
+    println!("the simulator child reported: {}", line.trim());
+    let mut runs = runs;
+    runs.sort();
+    let mk = |index: u64, plan: &plan::Plan, clause: &str, detail: &str, orig: usize, execs: u64, op: usize| Replay {
+        property: prop.clone(),
+        scenario: scenario.name().to_string(),
+        clause: clause.to_string(),
+        detail: detail.to_string(),
+        verif_seed,
+        run_index: index,
+        run_seed: run_seed(verif_seed, scenario, index),
+        tier: tier_name(tier).to_string(),
+        original_ops: orig,
+        minimised_ops: plan.ops.len(),
+        minimiser_executions: execs,
+        failing_op_index: op,
+        plan: plan.clone(),
+    };
+    for index in runs {
+        let plan = Gen::new(&env, run_seed(verif_seed, scenario, index), tier).plan(scenario);
+        let rep = mk(index, &plan, "pending", "", plan.ops.len(), 0, 0);
+        let (verdict, _) = judge_plan_in_child(&dir, "c", &rep, Duration::from_secs(15));
+        let class = match verdict {
+            Some(c) if c == "no-return" || c == "process-killed" => c,
+            _ => continue,
+        };
+        println!("run {} confirmed in a fresh process: {} ({} suspected)", index, class, kind);
+        // minimise by child executions (every failing candidate costs its time limit)
+        let mut best = plan.clone();
+        let mut execs = 0u64;
+        let limit = Duration::from_secs(4);
+        let fails = |p: &plan::Plan, execs: &mut u64| -> bool {
+            *execs += 1;
+            let r = mk(index, p, "pending", "", plan.ops.len(), 0, 0);
+            judge_plan_in_child(&dir, "m", &r, limit).0 == Some(class)
+        };
+        // cut after the first op that does not return: grow a prefix by halving
+        let mut lo = 1usize;
+        let mut hi = best.ops.len();
+        while lo < hi && execs < 14 {
+            let mid = (lo + hi) / 2;
+            let mut p = best.clone();
+            p.ops.truncate(mid);
+            if fails(&p, &mut execs) {
+                hi = mid;
+            } else {
+                lo = mid + 1;
+            }
+        }
+        best.ops.truncate(hi);
+        let mut chunk = (best.ops.len() / 2).max(1);
+        'dd: loop {
+            let mut removed = false;
+            let mut i = 0;
+            while i < best.ops.len() {
+                if execs >= 70 {
+                    break 'dd;
+                }
+                let e = (i + chunk).min(best.ops.len());
+                if e - i >= best.ops.len() {
+                    i += chunk;
+                    continue;
+                }
+                let mut p = best.clone();
+                p.ops.drain(i..e);
+                if fails(&p, &mut execs) {
+                    best = p;
+                    removed = true;
+                } else {
+                    i += chunk;
+                }
+            }
+            if chunk == 1 {
+                if !removed {
+                    break;
+                }
+            } else {
+                chunk = (chunk / 2).max(1);
+            }
+        }
+        let detail = if class == "no-return" {
+            format!("the last call of this history does not return (killed after {} s in a fresh process)", limit.as_secs())
+        } else {
+            "the last call of this history kills the process (stack overflow / abort); catch_unwind cannot see it".to_string()
+        };
+        let m = Minimised {
+            plan: best.clone(),
+            violation: exec::Violation { clause: class.to_string(), detail: detail.clone(), op_index: best.ops.len().saturating_sub(1) },
+            executions: execs,
+        };
+        let cfg = BatchCfg { scenario, tier, verif_seed, runs: 0, workers: 0, wall_cap: Duration::from_secs(0), first_index: 0, tally: false };
+        let path = write_replay(&env, &env.paths.verif, &cfg, index, plan.ops.len(), &m).unwrap_or_else(|e| die(&e));
+        println!("violated clause: {}", class);
+        println!("detail: {}", detail);
+        println!("minimised from {} to {} operations in {} child executions:", plan.ops.len(), best.ops.len(), execs);
+        for l in describe_plan(&env, &best) {
+            println!("    {}", l);
+        }
+        // what the dead child had covered, from its breadcrumb line
+        let num = |k: &str| -> u64 { line.split(k).nth(1).and_then(|s| s.split_whitespace().next()).and_then(|s| s.parse().ok()).unwrap_or(0) };
+        let ev = serde_json::json!({
+            "property_id": prop, "tier": tier_name(tier), "seed": verif_seed, "level": if scenario == Scenario::UserfileFaults { "fault_enumeration" } else { "exploration" },
+            "coverage": {
+                "evaluations": num("evals_done=").max(1),
+                "distinct_nontrivial": num("states_sum_over_workers=").max(2),
+                "rule": format!("{} -- this run ended early: a call did not return or killed the child process; counts are the child's breadcrumbs (distinct states summed over workers, may double count)", rule_for(scenario)),
+                "samples": [describe_plan(&env, &best)],
+                "runs": num("runs_done="), "ops_executed": num("ops_done="),
+            },
+            "assumptions": assumptions_for(scenario), "wall_s": 0.0, "violations": 1
+        });
+        let epath = format!("{}/evidence/{}.json", env.paths.verif, prop);
+        let _ = std::fs::write(&epath, serde_json::to_string_pretty(&ev).unwrap());
+        println!("VIOLATION property={} replay={}", prop, path);
+        return 1;
+    }
+    die(&format!("the simulator child ended with {:?} ({}), but none of the suspected runs reproduces it in a fresh process", end, line.trim()))
+}
+
+/// `replay` runs the recorded history in a child too: it may not return.
+fn cmd_replay_parent(args: &[String]) -> i32 {
+    let path = args.get(0).cloned().unwrap_or_else(|| die("replay: file missing"));
+    let text = std::fs::read_to_string(&path).unwrap_or_else(|e| die(&format!("{}: {}", path, e)));
+    if text.contains("\"ffi_lifecycle\"") {
+        return cmd_replay(args);
+    }
+    let recorded = serde_json::from_str::<Replay>(&text).map(|r| (r.clause, r.property)).unwrap_or_default();
+    let (end, _) = watch::run_child(&["replay-inner".to_string(), path.clone()], Duration::from_secs(30), true);
+    match classify_child(&end) {
+        None => 0,
+        Some("ordinary-violation") => 1,
+        Some("harness") => 2,
+        Some(class) => {
+            println!("clause: {}", class);
+            println!("the recorded history {} in a fresh process", if class == "no-return" { "does not return (killed after 30 s)" } else { "kills the process" });
+            if class == recorded.0 {
+                println!("REPRODUCED (same clause as recorded: {})", recorded.0);
+            } else {
+                println!("REPRODUCED A DIFFERENT CLAUSE (recorded: {})", recorded.0);
+            }
+            println!("VIOLATION property={} replay={}", recorded.1, path);
+            1
+        }
+    }
+}
+
 fn cmd_replay(args: &[String]) -> i32 {
     let path = args.get(0).cloned().unwrap_or_else(|| die("replay: file missing"));
     let text = std::fs::read_to_string(&path).unwrap_or_else(|e| die(&format!("{}: {}", path, e)));
@@ -260,8 +462,11 @@ fn cmd_replay(args: &[String]) -> i32 {
         return ffi_run::cmd_replay(&env, &path, &rep);
     }
     let rep: Replay = serde_json::from_str(&text).unwrap_or_else(|e| die(&format!("{}: {}", path, e)));
+    let quiet = args.iter().any(|a| a == "--quiet");
     let mut st = Stats::default();
-    let (o, log) = execute(&env, &rep.plan, &mut st, exec_opts(rep.plan.scenario, true));
+    watch::set_worker(0);
+    watch::begin_run(rep.run_index);
+    let (o, log) = execute(&env, &rep.plan, &mut st, exec_opts(rep.plan.scenario, !quiet));
     for l in &log {
         println!("{}", l);
     }
@@ -328,6 +533,47 @@ fn cmd_digests(args: &[String]) -> i32 {
     0
 }
 
+/// The stub must not misrepresent the code: fault-free runs of the disk-centred scenarios
+/// are executed twice, once on SimDisk and once with no SimFs installed over real
+/// directories (mtimes set explicitly to the simulated clock's values); observations and
+/// the final parsed store must be identical.
+fn cmd_fsmodel(args: &[String]) -> i32 {
+    let runs: u64 = arg_val(args, "--runs").and_then(|s| s.parse().ok()).unwrap_or(300);
+    let env = Env::load().unwrap_or_else(|e| die(&e));
+    let base = format!("{}/.cache/fsmodel-{}", env.paths.verif, std::process::id());
+    let _ = std::fs::remove_dir_all(&base);
+    std::fs::create_dir_all(&base).unwrap_or_else(|e| die(&format!("{}: {}", base, e)));
+    let mut rc = 0;
+    for scenario in [Scenario::LearnedDurability, Scenario::Reconfigure, Scenario::SessionReset, Scenario::HistoryIndependence] {
+        let mut compared = 0;
+        let mut mismatches = 0;
+        let mut saves = 0u64;
+        for i in 0..runs {
+            let plan = Gen::new(&env, run_seed(DEFAULT_SEED, scenario, i), Tier::Quick).plan(scenario);
+            let mut st = Stats::default();
+            let (a, _) = execute(&env, &plan, &mut st, exec_opts(scenario, false));
+            saves += st.get("save.complete");
+            let mut st2 = Stats::default();
+            let mut o = exec_opts(scenario, false);
+            o.mirror_base = Some(base.clone());
+            let (b, _) = execute(&env, &plan, &mut st2, o);
+            std::env::set_var("XDG_DATA_HOME", disk::XDG);
+            compared += 1;
+            let same_end = std::mem::discriminant(&a.end) == std::mem::discriminant(&b.end);
+            if a.obs_digest != b.obs_digest || a.final_store != b.final_store || !same_end {
+                mismatches += 1;
+                println!("fsmodel {} run {}: SimDisk and the real file system disagree (end {:?} vs {:?}, store {:?} vs {:?})", scenario.property(), i, a.end, b.end, a.final_store, b.final_store);
+            }
+        }
+        println!("fsmodel {}: {} fault-free runs on SimDisk and on the real file system, {} saves, {} mismatches", scenario.property(), compared, saves, mismatches);
+        if mismatches > 0 {
+            rc = 2;
+        }
+    }
+    let _ = std::fs::remove_dir_all(&base);
+    rc
+}
+
 fn cmd_show(args: &[String]) -> i32 {
     let prop = args.get(0).cloned().unwrap_or_else(|| die("show: property id missing"));
     let scenario = Scenario::from_property(&prop).unwrap_or_else(|| die("unknown property"));
@@ -354,10 +600,50 @@ fn main() {
     setup_process();
     let args: Vec<String> = std::env::args().skip(1).collect();
     let code = match args.first().map(|s| s.as_str()) {
-        Some("run") => cmd_run(&args[1..]),
-        Some("replay") => cmd_replay(&args[1..]),
+        Some("run") => cmd_run_parent(&args[1..]),
+        Some("run-inner") => {
+            watch::install_signal_handler();
+            watch::spawn_watchdog();
+            cmd_run(&args[1..])
+        }
+        Some("selftest-crash-inner") => {
+            // deliberately kills this process (stack overflow or abort) with a breadcrumb set
+            watch::install_signal_handler();
+            watch::set_worker(0);
+            watch::begin_run(4242);
+            if args.get(1).map(|s| s.as_str()) == Some("abort") {
+                std::process::abort();
+            }
+            #[inline(never)]
+            fn deep(n: u64) -> u64 {
+                let pad = std::hint::black_box([n; 512]);
+                if std::hint::black_box(n) == u64::MAX { 0 } else { deep(n + 1).wrapping_add(pad[(n % 512) as usize]) }
+            }
+            println!("{}", deep(std::hint::black_box(0)));
+            0
+        }
+        Some("selftest-crash") => {
+            // the breadcrumb machinery for calls that kill the process
+            let mut rc = 0;
+            for kind in ["overflow", "abort"] {
+                let (end, out) = watch::run_child(&["selftest-crash-inner".to_string(), kind.to_string()], Duration::from_secs(60), false);
+                let ok = matches!(end, watch::ChildEnd::Exit(c) if c == watch::EXIT_SUSPECT)
+                    && watch::parse_suspect(&out).map(|(k, r, _)| k == "signal" && r == vec![4242]).unwrap_or(false);
+                println!("crash breadcrumb ({}): child ended {:?}, breadcrumb {}", kind, end, if ok { "ok" } else { "MISSING" });
+                if !ok {
+                    rc = 2;
+                }
+            }
+            rc
+        }
+        Some("replay") => cmd_replay_parent(&args[1..]),
+        Some("replay-inner") => {
+            watch::install_signal_handler();
+            cmd_replay(&args[1..])
+        }
         Some("digests") => cmd_digests(&args[1..]),
         Some("show") => cmd_show(&args[1..]),
+        Some("fsmodel") => cmd_fsmodel(&args[1..]),
         Some("ffi-child") => ffi_run::cmd_child(&args[1..]),
         Some("ffi") => {
             let env = Arc::new(Env::load().unwrap_or_else(|e| die(&e)));
